@@ -36,19 +36,24 @@ THEOREMS = [
     "Sys.C01.execB_emits", "Sys.C01.emitted_is_forest", "Sys.C01.parse_reconstructs", "Sys.C01.roundtrip", "Sys.C01.field_values",
     "Sys.C01.roundtrip_lines", "Sys.C01.JsonView.codec_ok", "Sys.C01.roundtrip_file",
     "Sys.C01.extracted_fields", "Sys.Emit.extOf_nearest",
+    "Sys.execB_vars", "Sys.Emit.execX_emits", "Sys.Emit.execX_top", "Sys.C01.explicit_node", "Sys.C01.explicit_same_as_with",
 ]
 RULE = ("structured logging programs from harness/sysgen.py (profile: no explicit handles / remote ids, no failing serializers or "
         "destinations, destinations [recording, binary FileDestination, text FileDestination] registered first, typed actions and "
         "messages with succeeding serializers, tasks started inside actions, context-less messages, try/except with write_traceback, "
         "add_success_fields, exceptions of generated classes incl. BaseException subclasses and raising __str__); batch A = no exception "
         "extractors, batch B = non-raising exception extractors registered on generated and builtin classes (resolved along the MRO; "
-        "30% return a key eliot sets itself: reason / exception / traceback) - both inside the theorems' fragment; every program is parsed in emission order, reversed and 2 (quick) / 4 (thorough) seeded shuffles; non-trivial = depth "
+        "30% return a key eliot sets itself: reason / exception / traceback), batch E = batch B's programs with 65% of the with-blocks whose "
+        "body ends normally rewritten into the explicit spelling `x = start_action(..)`; one or two `with x.context():` / `x.run(..)` "
+        "segments; `x.finish()` (60%) or `x.finish(exc)` (40%) - all three inside the theorems' fragment; every program is parsed in emission order, reversed and 2 (quick) / 4 (thorough) seeded shuffles; non-trivial = depth "
         ">= 2, >= 6 messages, >= 1 failed action and (typed field or task inside an action); distinct by canonical hash of the program")
 TRUSTED = ["uuid4() does not collide (a counter in the harness, as in the model)", "time.time() is replaced by a counter (timestamps never compared otherwise)",
            "json.loads (CPython) reads what orjson wrote (C10 states the codec laws on the model; here the real pair is exercised on every line)",
            "the OS returns the bytes that were written and flushed to a regular file"]
-ASSUMPTIONS = ["structured programs: with-blocks, messages, add_success_fields on the current action, raise/try/except, write_traceback in handlers; "
-               "explicit finish / context() / run / serialize_task_id+continue_task are covered by C02/C04/C06, not here",
+ASSUMPTIONS = ["structured programs: with-blocks, messages, add_success_fields on the current action, raise/try/except, write_traceback in handlers, "
+               "and the explicit spelling of an action (x = start_action(..); context()/run segments whose bodies end normally and do not rebind x; "
+               "x.finish(..); adjacent in one block - a segment body that raises leaves the action unfinished: excluded by the decidable `wf`); "
+               "other uses of handles and serialize_task_id+continue_task are covered by C02/C04/C06, not here",
                "registered destinations never raise (a raising one adds eliot:destination_failure messages to the current action: C08)",
                "field serializers do not raise and no declared field is missing (else eliot:serialization_failure replaces the message: C13)",
                "registered exception extractors do not raise (a raising one makes eliot log an eliot:traceback of its own: C07); they may return any fields, "
@@ -58,7 +63,8 @@ ASSUMPTIONS = ["structured programs: with-blocks, messages, add_success_fields o
                "the link FV -> JSON used by roundtrip_file is the hypothesis structure JsonView.Faithful (lower/native/distinct keys/invertible), not derived from the core model",
                "no global fields, destinations registered before the program starts"]
 EXPLANATION = ("emission lemma (structured block inside an action stages exactly the dicts of its denotation, by mutual induction over Stmt/Block on "
-               "the shared core model) + projection onto parser specification trees (a permutation, nothing lost, ids = stage indices, uuids distinct) + "
+               "the shared core model; a third mutual theorem carries the invariant of an explicitly spelled action while it is open, its node is "
+               "the with-block's: explicit_node / explicit_same_as_with) + projection onto parser specification trees (a permutation, nothing lost, ids = stage indices, uuids distinct) + "
                "C09.feed_ok (any order parses to exactly those trees, complete) + C10/C11 (one newline-free faithful line per dict, reader returns them)")
 
 BASE = dict(p_handles=0.0, p_remote=0.0, p_ser_fail=0.0, p_missing_field=0.0, p_late_add=0.0, p_remove=0.0, p_dest_fail=0.0,
@@ -129,6 +135,60 @@ def gen(rng, profile):
     return normalise(sysgen.gen_case(rng, profile))
 
 
+# ---- the explicit spelling of an action ------------------------------------------------------
+
+def block_raises(block):
+    """Does running the block end by raising?  In this profile control flow is static: `raise` always raises, a
+    `with` block re-raises what its body raised, `except BaseException` catches everything, no API call raises."""
+    return any(stmt_raises(s) for s in block)
+
+
+def stmt_raises(s):
+    op = s["op"]
+    if op == "raise":
+        return True
+    if op in ("with", "withHandle", "inContext", "runIn"):
+        return block_raises(s["body"])
+    if op == "try":
+        return block_raises(s["body"]) and block_raises(s["handler"])
+    return False
+
+
+def explicit_spelling(case, rng, n_exc):
+    """Rewrite `with start_action(..): body` blocks whose body ends normally into the explicit spelling
+    `x = start_action(..)`; one or two segments `with x.context(): ..` / `x.run(lambda: ..)` holding the body;
+    `x.finish()` or `x.finish(exc)` - all adjacent, `x` fresh.  (`finish(exc)` does not raise: what follows runs.)"""
+    counter = [0]
+
+    def walk(block):
+        out = []
+        for s in block:
+            s = dict(s)
+            for k in ("body", "handler"):
+                if k in s:
+                    s[k] = walk(s[k])
+            if s["op"] == "with" and not block_raises(s["body"]) and rng.random() < 0.65:
+                x = counter[0]
+                counter[0] += 1
+                body = s["body"]
+                out.append(dict(op="startAs", x=x, task=s["task"], spec=s["spec"]))
+                cut = rng.randint(0, len(body)) if rng.random() < 0.35 else None
+                parts = [body] if cut is None else [body[:cut], body[cut:]]
+                for part in parts:
+                    out.append(dict(op=rng.choice(["inContext", "runIn"]), x=x, body=part))
+                out.append(dict(op="finish", x=x, exc=(rng.randrange(n_exc) if n_exc and rng.random() < 0.4 else None)))
+            else:
+                out.append(s)
+        return out
+
+    return dict(case, prog=walk(case["prog"]))
+
+
+def gen_explicit(rng, profile):
+    case = normalise(sysgen.gen_case(rng, profile))
+    return explicit_spelling(case, rng, len(case["env"]["excs"]))
+
+
 # ---- the real run + the oracle's forest ------------------------------------------------------
 
 class RT(sysinterp.Runtime):
@@ -193,6 +253,7 @@ class Oracle:
         self.rt = rt
         self.trees = []
         self.stack = []
+        self.handles = {}  # x -> (Action, its node, declared serializers)
         self.extractors = [(rt.classes[e["cls"]], {k: rt.value(v) for k, v in e["fields"]}) for e in env["extractors"]]
 
     def extracted(self, exc):
@@ -286,6 +347,42 @@ class Oracle:
             self.stack[-1]["succ"].update(kw)
             from eliot import _action
             api(rt, "add_success_fields", _action.current_action().add_success_fields, **kw)
+        elif op == "startAs":
+            sp = s["spec"]
+            sers = sp.get("sers")
+            kw = rt.kwargs(sp["fields"])
+            node = dict(kind="action", atype=sp["atype"], start=self.typed(kw, sers and sers["start"]), children=[], succ={},
+                        status=None, end=None)
+            self.attach(node, own_tree=s["task"])
+            self.handles[s["x"]] = (sysinterp._make_action2(rt, s["task"], sp), node, sers)
+        elif op in ("inContext", "runIn"):
+            if s["x"] not in self.handles:
+                raise Stuck()
+            a, node, _ = self.handles[s["x"]]
+            self.stack.append(node)
+            try:
+                if op == "inContext":
+                    with api(rt, "Action.context", a.context):
+                        self.block(s["body"])
+                else:
+                    a.run(lambda: self.block(s["body"]))
+            finally:
+                self.stack.pop()
+        elif op == "finish":
+            if s["x"] not in self.handles:
+                raise Stuck()
+            a, node, sers = self.handles[s["x"]]
+            if s.get("exc") is None:
+                if node["status"] is None:
+                    node["status"] = "succeeded"
+                    node["end"] = self.typed(node["succ"], sers and sers["success"])
+                api(rt, "Action.finish", a.finish)
+            else:
+                exc = rt.make_exc(s["exc"])
+                if node["status"] is None:
+                    node["status"] = "failed"
+                    node["end"] = dict(self.extracted(exc), exception=qualname(type(exc)), reason=safe_str(exc))
+                api(rt, "Action.finish", a.finish, exc)
         elif op == "addDests":
             api(rt, "add_destinations", eliot.add_destinations, *[rt.dest(d) for d in s["ds"]])
         elif op == "probe":
@@ -667,12 +764,12 @@ def check_cases(ctx, cases, batch):
 def run(ctx):
     n = ctx.budget(300, 10000)
     chunk = 500
-    for batch, profile, share in (("A", PROFILE_A, 0.7), ("B", PROFILE_B, 0.3)):
+    for batch, profile, share, make in (("A", PROFILE_A, 0.5, gen), ("B", PROFILE_B, 0.2, gen), ("E", PROFILE_B, 0.3, gen_explicit)):
         rng = ctx.rng("gen" + batch)
         todo = int(n * share)
         while todo > 0:
             k = min(chunk, todo)
-            check_cases(ctx, [gen(rng, profile) for _ in range(k)], batch)
+            check_cases(ctx, [make(rng, profile) for _ in range(k)], batch)
             todo -= k
     for name, what in (("correspondence:sys-model", "real destinations (recording, binary and text FileDestination read back with json.loads) received exactly the dicts the core model stages; same outcome"),
                        ("correspondence:parser-model", "real eliot.parse.Parser and the trie model agree after every add, on every order")):
